@@ -10,6 +10,8 @@ import (
 	"context"
 	"fmt"
 	"math/rand"
+	"os"
+	"runtime/pprof"
 	"strings"
 	"sync"
 	"sync/atomic"
@@ -83,12 +85,18 @@ func TestCheck(t *testing.T) {
 	sink := &logSink{}
 	log.InitJSONForT(t, sink)
 
-	nA := r.N(900, 15000)
-	nB := r.N(300, 5000)
+	nA := r.N(2400, 45000)
+	nB := r.N(800, 15000)
 	r.Cases(nA, 0, func(c *kit.Case) { runCase(c, c.Rng, "A:default-features", false) })
 	featureset.EnableForT(t, featureset.SSEReorgDuties)
 	r.Cases(nB, 0, func(c *kit.Case) { runCase(c, r.Rand(c.Idx, 15), "B:sse_reorg_duties", true) })
 
+	if p := os.Getenv("C15_GOROUTINE_DUMP"); p != "" { // diagnostic: goroutines still alive after all cases
+		if f, err := os.Create(p); err == nil {
+			_ = pprof.Lookup("goroutine").WriteTo(f, 1)
+			_ = f.Close()
+		}
+	}
 	sink.counts.Range(func(k, v any) bool {
 		r.Count("log/"+k.(string), atomic.LoadInt64(v.(*int64)))
 		return true
